@@ -124,8 +124,17 @@ package genetics
 //@     invariant forall i :: 0 <= i && i <= #idx ==> nodeIdMap[g.Nodes[i].Id] == nodesDup[i]
 //@ pred geneLinksWF(gs []*Gene) = forall i :: 0 <= i && i < len(gs) ==> gs[i].Link != nil && gs[i].Link.InNode != nil && gs[i].Link.OutNode != nil
 //@ pred endpointsAreNodes(g *Genome) = forall i :: 0 <= i && i < len(g.Genes) ==> (exists a :: 0 <= a && a < len(g.Nodes) && g.Nodes[a].Id == g.Genes[i].Link.InNode.Id) && (exists b :: 0 <= b && b < len(g.Nodes) && g.Nodes[b].Id == g.Genes[i].Link.OutNode.Id)
+// Well-formedness as C01 states it (non-modular part): genes strictly ascending by innovation number, no two genes joining the same ordered node
+// pair with the same recurrence flag, nodes strictly ascending by id (hence unique), every gene endpoint one of the genome's own node OBJECTS, no gene
+// ending in an input or bias node, and the id index returning each node for its id.
+//@ pred noDupLinks(gs []*Gene) = forall i, j :: 0 <= i && i < j && j < len(gs) ==> !(gs[i].Link.InNode.Id == gs[j].Link.InNode.Id && gs[i].Link.OutNode.Id == gs[j].Link.OutNode.Id && gs[i].Link.IsRecurrent == gs[j].Link.IsRecurrent)
+//@ pred endsAreOwnNodes(g *Genome) = forall i :: 0 <= i && i < len(g.Genes) ==> (exists a :: 0 <= a && a < len(g.Nodes) && g.Nodes[a] == g.Genes[i].Link.InNode) && (exists b :: 0 <= b && b < len(g.Nodes) && g.Nodes[b] == g.Genes[i].Link.OutNode)
+//@ pred noSensorTargets(g *Genome) = forall i :: 0 <= i && i < len(g.Genes) ==> g.Genes[i].Link.OutNode.NeuronType != network.InputNeuron && g.Genes[i].Link.OutNode.NeuronType != network.BiasNeuron
+//@ pred idIndexWF(g *Genome) = forall i :: 0 <= i && i < len(g.Nodes) ==> mapHas(g.nodeByIdMap, g.Nodes[i].Id) && g.nodeByIdMap[g.Nodes[i].Id] == g.Nodes[i]
+//@ pred wfGenome(g *Genome) = g != nil && nonNilGenes(g.Genes) && geneLinksWF(g.Genes) && nonNilNodes(g.Nodes) && sortedLT(g.Genes) && noDupLinks(g.Genes) && sortedNodesLT(g.Nodes) && endsAreOwnNodes(g) && noSensorTargets(g) && idIndexWF(g)
 //@ func (*Genome).duplicate
 //@   props C06 C10 C01
+//@   ensures [closure] wfGenome(g) ==> wfGenome(result0)
 //@   requires g != nil && nonNilTraits(g.Traits) && nonNilNodes(g.Nodes) && nonNilGenes(g.Genes) && geneLinksWF(g.Genes)
 //@   requires endpointsAreNodes(g)
 //@   requires sortedNodesLT(g.Nodes)
